@@ -4,6 +4,20 @@ let parse_op s =
   | ["s"; p] -> (true, parse_pen p)
   | ["c"; p] -> (false, parse_pen p)
   | _ -> failwith "op"
+(* the pen object reused through the case: p sets attributes on it, k clears the named ones, S / C hand it to
+   setpen / chpen.  Returns per op: None (no request; prints ".") or the request *)
+let effective_ops (ops : string list) : (bool * pen) option list =
+  let overlay base p = (fun a -> match p a with Some v -> Some v | None -> base a) in
+  let rec go reuse = function
+    | [] -> []
+    | op :: r ->
+      (match split_on ':' op with
+       | ["p"; p] -> None :: go (overlay reuse (parse_pen p)) r
+       | ["k"; p] -> let q = parse_pen p in None :: go (fun a -> match q a with Some _ -> None | None -> reuse a) r
+       | ["S"; _] -> Some (true, reuse) :: go reuse r
+       | ["C"; _] -> Some (false, reuse) :: go reuse r
+       | _ -> Some (parse_op op) :: go reuse r) in
+  go empty_pen ops
 let model line =
   match split_ws line with
   | "X" :: colon :: rgb :: ops ->
@@ -11,29 +25,29 @@ let model line =
     let b = Buffer.create 256 in
     Buffer.add_string b ("I:" ^ hex_of_bytes (render xt_start));
     let _ = List.fold_left (fun st op ->
-        match st with
-        | None -> Buffer.add_string b " FAULT"; None
-        | Some s ->
-          let (is_set, p) = parse_op op in
+        match st, op with
+        | None, _ -> Buffer.add_string b " FAULT"; None
+        | Some s, None -> Buffer.add_string b " ."; Some s
+        | Some s, Some (is_set, p) ->
           (match (if is_set then do_setpen else do_chpen) chpen_params_capacity colon rgb s p with
            | None -> Buffer.add_string b " FAULT"; None
            | Some (s', toks) -> Buffer.add_string b (" " ^ hex_of_bytes (render toks)); Some s'))
-        (Some { tp_pen = empty_pen; tp_colors = xterm_colors }) ops in
+        (Some { tp_pen = empty_pen; tp_colors = xterm_colors }) (effective_ops ops) in
     Buffer.contents b
   | "D" :: colors :: ops ->
     let colors = zi colors in
     let b = Buffer.create 256 in
     Buffer.add_string b "D";
     let _ = List.fold_left (fun st op ->
-        match st with
-        | None -> Buffer.add_string b " FAULT"; None
-        | Some tp ->
-          let (is_set, p) = parse_op op in
+        match st, op with
+        | None, _ -> Buffer.add_string b " FAULT"; None
+        | Some tp, None -> Buffer.add_string b " ."; Some tp
+        | Some tp, Some (is_set, p) ->
           (match (if is_set then term_setpen else term_chpen) colors tp p with
            | None -> Buffer.add_string b " FAULT"; None
            | Some (tp', delta) ->
              Buffer.add_string b (" " ^ string_of_pen delta ^ ">" ^ string_of_pen tp'); Some tp'))
-        (Some empty_pen) ops in
+        (Some empty_pen) (effective_ops ops) in
     Buffer.contents b
   | _ -> failwith "case"
 let verdict = function
@@ -48,13 +62,15 @@ let oracle line =
        when String.length init >= 2 && String.sub init 0 2 = "I:" && List.length obs = List.length ops ->
        let start = bytes_of_hex (String.sub init 2 (String.length init - 2)) in
        let v0 = vt_run_bytes start (vt_init (z_of_int 5) (z_of_int 10)) in
-       let items = List.map2 (fun op ob -> (parse_op op, bytes_of_hex ob)) ops obs in
+       let items = List.concat (List.map2 (fun op ob ->
+           match op with None -> if ob = "." then [] else failwith "obs ." | Some o -> [(o, bytes_of_hex ob)]) (effective_ops ops) obs) in
        verdict (oracle_pens (colon <> "0") (rgb <> "0") O empty_pen v0 items)
      | "D" :: colors :: ops, "D" :: obs when List.length obs = List.length ops ->
-       let items = List.map2 (fun op ob ->
-           match split_on '>' ob with
-           | [d; f] -> ((parse_op op, parse_pen d), parse_pen f)
-           | _ -> failwith "obs") ops obs in
+       let items = List.concat (List.map2 (fun op ob ->
+           match op, split_on '>' ob with
+           | None, _ -> if ob = "." then [] else failwith "obs ."
+           | Some o, [d; f] -> [((o, parse_pen d), parse_pen f)]
+           | _ -> failwith "obs") (effective_ops ops) obs) in
        verdict (oracle_deltas (zi colors) O empty_pen items)
      | _ -> "BAD obs")
   | _ -> "BAD line"
